@@ -89,7 +89,7 @@ Next == (\E i \in Inputs : Call(i)) \/ (\E e \in BOOLEAN : Return(e)) \/ Error
 Spec == CInit /\ [][Next]_vars
 
 TextOf(i) == IF i.fam = "named" THEN Named[i.n].x ELSE Member(i.fam, i.n)
-DocOf(i)  == IF i.fam = "named" THEN Docs[Named[i.n].d] ELSE Docs[1]
+DocOf(i)  == IF i.fam = "named" THEN Docs[Named[i.n].d] ELSE IF i.fam = "deepdsteps" THEN DeepDoc ELSE Docs[1]
 
 TypeOk == pc \in {"idle", "called"} /\ result \in {"none", "ok", "err"} /\ input.allow \in Allows
 \* every call can complete, and only by Return or Error
